@@ -117,12 +117,12 @@ def compare_leg(ctx, best, leg, lines):
                          "ClonePool" if leg == "pool" else "GcRuntime", hist), replay, found_input=False)
             ctx.count(leg + ":levelB-differs")
         if "ds=1" in impl:
+            # runtime.SetFinalizer was called on an object that already carried a finaliser: the Go runtime throws
             ctx.count(leg + ":setfinalizer-twice")
-            if leg == "rt":
-                best.add("A rt fatal-finalizer-already-set", line,
-                         "history `%s`: a value that still carries the Go finaliser of one context's pool is marked in "
-                         "another pool; the real runtime.SetFinalizer throws `finalizer already set` (process dies); "
-                         "expected: the value stays finalisable exactly once" % hist, replay)
+            best.add("A %s fatal-finalizer-already-set" % leg, line,
+                     "history `%s`: SetFinalizer is called on an object that already has a finaliser; the real "
+                     "runtime.SetFinalizer throws `finalizer already set` (the process dies); expected: Mark clears "
+                     "before it sets and a value is looked after by one pool only" % hist, replay)
         if "panic" in impl.split(" ; ")[0].split(" "):
             ctx.count(leg + ":mark-after-release-panics")
         ctx.count(leg + ":levelA:" + (verdict if verdict in ("ok", "fatal", "undisciplined") else "bad"))
